@@ -1488,16 +1488,45 @@ Theorem step_refines al t o :
   Inv t -> op_pre keq (abs t) o ->
   exists t' b, obj_step keq hash al t o = Some (t', b) /\ Inv t' /\ abs t' = spec_step keq (abs t) o b.
 Proof.
-  intros HI Hpre. destruct o as [k v is_new cst fail1|k|k|bykey p]; cbn [obj_step spec_step].
+  intros HI Hpre. destruct o as [k v is_new cst fail1|k is_new cst|k|k|bykey p]; cbn [obj_step spec_step].
   - assert (Hp : is_new = true -> a_mem keq (abs t) k = false).
     { intros ->. exact Hpre. }
     pose proof (insert_refines al fail1 t k v is_new cst HI Hp) as S.
     destruct (obj_add_ex keq hash al fail1 t k v is_new cst) as [t'| |why]; [| |contradiction].
     + exists t', true. tauto.
     + exists t, false. auto.
+  - exists t, false. unfold obj_add_self.
+    destruct (if is_new then None else lh_table_lookup_entry keq hash t k); auto.
   - destruct (obj_del_refines t k HI) as (t' & -> & HI' & Ha). exists t', true. auto.
   - exists t, true. auto.
   - destruct (foreach_delete_current bykey p t HI) as (t' & -> & HI' & Ha). exists t', true. auto.
+Qed.
+
+(* refused operations are refused in every state and change NOTHING (the table itself is
+   returned, not merely an equivalent one): self-insertion whatever the key's presence, the
+   flags and the fill level; deletion of an absent key; lookups *)
+Definition refused (m : amap) (o : op key val) : Prop :=
+  match o with
+  | OAddSelf _ _ _ => True
+  | ODel k => a_mem keq m k = false
+  | OGet _ => True
+  | _ => False
+  end.
+
+Theorem refused_unchanged al t o :
+  Inv t -> refused (abs t) o ->
+  exists b, obj_step keq hash al t o = Some (t, b) /\
+            match o with OAddSelf _ _ _ => b = false | _ => True end.
+Proof.
+  intros HI Hr. destruct o as [k v is_new cst fail1|k is_new cst|k|k|bykey p]; cbn [refused obj_step] in *;
+    try contradiction.
+  - exists false. unfold obj_add_self.
+    destruct (if is_new then None else lh_table_lookup_entry keq hash t k); auto.
+  - exists true. split; [|exact I]. unfold obj_del.
+    pose proof (delete_refines t k HI) as S.
+    destruct (lh_table_delete keq hash t k) as [t'| |]; [|reflexivity|contradiction].
+    destruct S as (Hm & _). congruence.
+  - exists true. auto.
 Qed.
 
 Theorem run_refines al ops : forall t,
@@ -1658,3 +1687,15 @@ Example ex_world :
     oks = [true; true; true; true; true; true; true; false; true; true; true; true; true] /\
     gspec_run Z.eqb [] ex_gops oks = [[(1, 11); (3, 30)]; [(2, 7); (1, 6)]].
 Proof. eexists _, _. vm_compute. repeat split. Qed.
+
+(* refusals at a growth threshold (2 of 2 slots used: the next insertion would double the
+   table): self-insertion under a present key, under an absent key with both flags, deletion
+   of an absent key - the very same table comes back *)
+Example ex_refused :
+  exists t, obj_run Z.eqb (fun _ => 7) (fun _ => true) (table_new Z Z 1)
+              [OAdd 1 10 false false false; OAdd 2 20 false false false] = Some (t, [true; true]) /\
+    tsize t = 2 /\ obj_length t = 2 /\
+    obj_step Z.eqb (fun _ => 7) (fun _ => true) t (OAddSelf 1 false false) = Some (t, false) /\
+    obj_step Z.eqb (fun _ => 7) (fun _ => true) t (OAddSelf 9 true true) = Some (t, false) /\
+    obj_step Z.eqb (fun _ => 7) (fun _ => true) t (ODel 9) = Some (t, true).
+Proof. eexists. vm_compute. repeat split. Qed.
